@@ -313,6 +313,12 @@ func (s *decScope) nonNegative(v ssa.Value, at *ssa.BasicBlock, depth int) (bool
 	if depth > 8 {
 		return false, "too deep"
 	}
+	if p, ok := v.(*ssa.Parameter); ok {
+		// inside a callee that is analysed for one call site: the argument
+		if bnd, ok := s.paramBind[p]; ok {
+			return s.nonNegative(bnd.v, bnd.at, depth+1)
+		}
+	}
 	if at != nil && lowerBoundedAt(at, v, nil) {
 		return true, "passed a non-negativity test on every path"
 	}
@@ -362,6 +368,15 @@ func (s *decScope) nonNegative(v ssa.Value, at *ssa.BasicBlock, depth int) (bool
 			}
 			if callee.Blocks != nil && strings.HasPrefix(pkgPathOf(callee), repoMod) && depth < 4 && callee.Signature.Results().Len() >= 1 {
 				all, any := true, false
+				// bind the callee's parameters to this site's arguments
+				if s.paramBind == nil {
+					s.paramBind = map[*ssa.Parameter]boundArg{}
+				}
+				for i, a := range x.Call.Args {
+					if i < len(callee.Params) {
+						s.paramBind[callee.Params[i]] = boundArg{a, at}
+					}
+				}
 				for _, cb := range callee.Blocks {
 					if ret, ok := cb.Instrs[len(cb.Instrs)-1].(*ssa.Return); ok && len(ret.Results) >= 1 {
 						any = true
@@ -369,6 +384,9 @@ func (s *decScope) nonNegative(v ssa.Value, at *ssa.BasicBlock, depth int) (bool
 							all = false
 						}
 					}
+				}
+				for _, p := range callee.Params {
+					delete(s.paramBind, p)
 				}
 				if all && any {
 					return true, "every value " + callee.Name() + " returns is non-negative"
@@ -435,6 +453,11 @@ func (s *decScope) nonNegative(v ssa.Value, at *ssa.BasicBlock, depth int) (bool
 		}
 	}
 	return false, fmt.Sprintf("%s (%T)", v.Name(), v)
+}
+
+type boundArg struct {
+	v  ssa.Value
+	at *ssa.BasicBlock
 }
 
 // equalsLenMinus: the facts at `at` say v + k == len(S) for a constant k >= 0,
